@@ -13,6 +13,10 @@ use serde_json::json;
 
 const BOUND: i32 = 50_000;
 
+thread_local! {
+    static RECENT_KEYS: std::cell::RefCell<Vec<u64>> = const { std::cell::RefCell::new(Vec::new()) };
+}
+
 pub fn eval_of(p: &Pos) -> Result<(i32, BoardState), String> {
     let fen = p.to_fen6(0, 1);
     par::catch(|| {
@@ -78,9 +82,46 @@ pub fn check_placement(p: &Pos, acc: &mut Acc, rng: &mut Rng, sample: bool) {
     v.last_move = Some((Point(2 + rng.below(8) as usize, 2 + rng.below(8) as usize), Point(2 + rng.below(8) as usize, 2 + rng.below(8) as usize)));
     v.pawn_promotion = Some(Piece::queen(b.to_move));
     v.order_heuristic = rng.next() as i32;
-    v.zobrist_key = rng.next();
+    // the key of a *different* position evaluated a moment ago on this thread when there is one
+    // (a result remembered per key would then answer for the wrong placement), else random
+    v.zobrist_key = RECENT_KEYS.with(|r| {
+        let r = r.borrow();
+        r.iter().rev().find(|k| **k != b.zobrist_key).copied()
+    })
+    .unwrap_or_else(|| rng.next());
     v.white_king_location = Point(2 + rng.below(8) as usize, 2 + rng.below(8) as usize);
     v.black_king_location = Point(2 + rng.below(8) as usize, 2 + rng.below(8) as usize);
+    RECENT_KEYS.with(|r| {
+        let mut r = r.borrow_mut();
+        r.push(b.zobrist_key);
+        if r.len() > 8 {
+            r.remove(0);
+        }
+    });
+    // the move handed over the way the search's null move does it: side to move flipped on a
+    // clone, every other field (the key included) left as it was
+    let mut nm = b.clone();
+    nm.to_move = match b.to_move {
+        crate::board::PieceColor::White => crate::board::PieceColor::Black,
+        crate::board::PieceColor::Black => crate::board::PieceColor::White,
+    };
+    match par::catch(|| get_evaluation(&nm)) {
+        Ok(en) => {
+            if en != -e {
+                acc.violation(format!("C14|handover|{}", p.to_fen()), format!("eval({}) = {} but the same board with only the side to move flipped (as the null move does, key unchanged) evaluates to {} (expected {})", p.to_fen(), e, en, -e), case.clone());
+            }
+        }
+        Err(msg) => acc.violation(format!("C14|panic-handover|{}", p.placement_fen()), format!("evaluating {} with the move handed over panicked: {}", p.to_fen(), msg), case.clone()),
+    }
+    // and the original board again: the answer must not depend on what was evaluated in between
+    match par::catch(|| get_evaluation(&b)) {
+        Ok(e2) => {
+            if e2 != e {
+                acc.violation(format!("C14|history|{}", p.to_fen()), format!("eval({}) was {} and is {} after other boards were evaluated in between", p.to_fen(), e, e2), case.clone());
+            }
+        }
+        Err(_) => {}
+    }
     match par::catch(|| get_evaluation(&v)) {
         Ok(ev) => {
             if ev != e {
@@ -224,7 +265,7 @@ fn check_mate_range(p: &Pos, h: &crate::zobrist::ZobristHasher, acc: &mut Acc, s
 
 pub fn run(tier: Tier, seed: u64) -> i32 {
     let mut run = Run::new("C14", tier, seed, "exploration");
-    run.rule = "evaluation = one placement for which eval is compared with (a) the eval of its colour-mirrored twin, (b) the negated eval with the other side to move, (c) the eval after scrambling every non-placement field, (d) the bound 50 000; plus (e) the real search at depths 1-2 on legal extreme-material roots (5-9 queens + rooks/minors against a nearly bare king, with and without a forced mate) compared with the exact reference value: a material value must be reported as cp, a forced mate as mate. Workload: exhaustive single-piece basis (12 pieces x 64 squares x phases 0..26 by symmetric filler x both sides to move), random placements with up to nine queens a side (legal or not), positions from the start library. Non-trivial = at least one piece and a non-zero evaluation; distinct by FEN".into();
+    run.rule = "evaluation = one placement for which eval is compared with (a) the eval of its colour-mirrored twin, (b) the negated eval with the other side to move, (c) the eval after scrambling every non-placement field (the key is set to that of a different, just evaluated position) and after handing the move over on a clone the way the null move does (key unchanged), and the eval of the original board again afterwards, (d) the bound 50 000; plus (e) the real search at depths 1-2 on legal extreme-material roots (5-9 queens + rooks/minors against a nearly bare king, with and without a forced mate) compared with the exact reference value: a material value must be reported as cp, a forced mate as mate. Workload: exhaustive single-piece basis (12 pieces x 64 squares x phases 0..26 by symmetric filler x both sides to move), random placements with up to nine queens a side (legal or not), positions from the start library. Non-trivial = at least one piece and a non-zero evaluation; distinct by FEN".into();
     run.assumptions = vec![
         "metamorphic oracle only: the tables themselves are not compared with an external copy of PeSTO".into(),
         "bound 50 000 = half the mate score; largest material constructible with nine queens a side evaluates near 1.4*10^4".into(),
